@@ -75,6 +75,13 @@ var c19badURLs = []string{
 	"file://:p%%40ss@%s",
 	"file://u:@localhost%s",
 	"file://localhost:0%s",
+	"file://%s?&",
+	"file://%s?&&&",
+	"file://%s?%%zz",
+	"file://%s?a=%%zz",
+	"file://%s?a;b",
+	"file://%s?x=1;y",
+	"file://localhost%s?=",
 }
 
 type c19world struct {
